@@ -310,7 +310,7 @@ def observer_arms(d, T, validated):
             key_arm = key_arm % ('"env": match &inner { Ok(v) => %s, Err(_) => Value::Null },' % str_env_expr(d, "v") if fam == "string" else "")
         env_inner = ('"env": match &inner { Ok(v) => %s, Err(_) => Value::Null },' % str_env_expr(d, "v")) if fam == "string" else ""
         arms.append(
-            '"deser" => { let fmt = inp["fmt"].as_str().unwrap(); let pos = inp["pos"].as_str().unwrap(); %s'
+            '"deser" | "deser_any" => { let fmt = inp["fmt"].as_str().unwrap(); let pos = inp["pos"].as_str().unwrap(); %s'
             'let doc = if let Some(r) = inp.get("raw") { probe::Doc::from_repr(r) } else { '
             'let x: Inner = <Inner as Dec>::dec(&inp["val"]); match probe::ser_at(fmt, pos, refty::Nt(x)) { Ok(d) => d, Err(e) => return (json!({"k": "skip", "m": e}), Value::Null) } }; '
             'let inner = probe::de_at::<refty::Nt>(fmt, pos, &doc).map(|r| r.0); '
